@@ -647,7 +647,106 @@ fn known_probes(ck: &mut Checker) {
   }
 }
 
+fn percent_encode(s: &str) -> String {
+  s.bytes().map(|b| if b.is_ascii_alphanumeric() || matches!(b, b'-' | b'_' | b'.' | b'~' | b':') { (b as char).to_string() } else { format!("%{b:02X}") }).collect()
+}
+
+/// The explorer's query parsers (src/subcommand/server/query.rs and the path
+/// extractors), reached over HTTP on an in-process server: every string must
+/// get *an answer* (a handler panic shows as a dropped connection), and
+/// `/sat/<s>` may answer 200 only with the sat the string denotes.
+fn http_pass(ctx: &Ctx, rep: &mut Report) {
+  use crate::{explorer::Explorer, idx::IndexCfg, node::Node};
+  let dir = std::path::PathBuf::from(format!("{}/c31http", if ctx.scratch.is_empty() { "/tmp/verif-scratch".to_string() } else { ctx.scratch.clone() }));
+  let _ = std::fs::remove_dir_all(&dir);
+  std::fs::create_dir_all(&dir).unwrap();
+  let mut node = Node::new(bitcoin::Network::Regtest);
+  let mut model = crate::model::Model::new();
+  model.apply_block(&node.block_at(0).unwrap());
+  let mut bgen = crate::blockgen::Gen::new(crate::blockgen::GenCfg::default());
+  let mut rng0 = ctx.rng(u64::MAX - 7);
+  crate::chainbuild::extend(&mut rng0, &mut node, &mut model, &mut bgen, 12);
+  let mut cfg = IndexCfg::all();
+  cfg.commit_interval = None;
+  let ex = match Explorer::start(&node, &dir, &cfg, &[], &[]) {
+    Ok(ex) => ex,
+    Err(e) => {
+      rep.inconclusive(format!("explorer: {e}"));
+      return;
+    }
+  };
+  for case in ctx.cases(u64::MAX) {
+    let mut rng = ctx.rng(case);
+    let replay = ctx.replay_info(case);
+    for _ in 0..16 {
+      let sat = gen_sat_string(&mut rng);
+      let spaced = gen_spaced_string(&mut rng);
+      let id = maybe_damage(format!("{}i{}", gen_hex64(&mut rng), digits(&mut rng)), &mut rng);
+      let satpoint = maybe_damage(format!("{}:{}:{}", gen_hex64(&mut rng), digits(&mut rng), digits(&mut rng)), &mut rng);
+      let outpoint = maybe_damage(format!("{}:{}", gen_hex64(&mut rng), digits(&mut rng)), &mut rng);
+      let number = maybe_damage(format!("{}{}", if rng.chance(1, 3) { "-" } else { "" }, digits(&mut rng)), &mut rng);
+      let rune_id = maybe_damage(format!("{}:{}", digits(&mut rng), digits(&mut rng)), &mut rng);
+      let hash = maybe_damage(gen_hex64(&mut rng), &mut rng);
+      let routes: Vec<(&str, String)> = vec![
+        ("sat", format!("/sat/{}", percent_encode(&sat))),
+        ("r-sat", format!("/r/sat/{}", percent_encode(&number))),
+        ("r-sat-at", format!("/r/sat/{}/at/{}", percent_encode(&sat), percent_encode(&number))),
+        ("r-sat-at-content", format!("/r/sat/{}/at/{}/content", percent_encode(&sat), percent_encode(&number))),
+        ("inscription", format!("/inscription/{}", percent_encode(if rng.chance(1, 2) { &id } else if rng.chance(1, 2) { &number } else { &sat }))),
+        ("inscription-child", format!("/inscription/{}/{}", percent_encode(&id), percent_encode(&number))),
+        ("r-inscription", format!("/r/inscription/{}", percent_encode(&id))),
+        ("content", format!("/content/{}", percent_encode(&id))),
+        ("rune", format!("/rune/{}", percent_encode(if rng.chance(1, 2) { &spaced } else if rng.chance(1, 2) { &rune_id } else { &number }))),
+        ("runes-page", format!("/runes/{}", percent_encode(&number))),
+        ("block", format!("/block/{}", percent_encode(if rng.chance(1, 2) { &number } else { &hash }))),
+        ("r-blockhash", format!("/r/blockhash/{}", percent_encode(&number))),
+        ("r-blockinfo", format!("/r/blockinfo/{}", percent_encode(&number))),
+        ("inscriptions-block", format!("/inscriptions/block/{}/{}", percent_encode(&number), percent_encode(&digits(&mut rng)))),
+        ("inscriptions-page", format!("/inscriptions/{}", percent_encode(&number))),
+        ("output", format!("/output/{}", percent_encode(&outpoint))),
+        ("r-utxo", format!("/r/utxo/{}", percent_encode(&outpoint))),
+        ("satpoint", format!("/satpoint/{}", percent_encode(&satpoint))),
+        ("tx", format!("/tx/{}", percent_encode(&hash))),
+        ("search", format!("/search/{}", percent_encode(match rng.below(5) { 0 => &sat, 1 => &spaced, 2 => &id, 3 => &outpoint, _ => &number }))),
+        ("search-query", format!("/search?query={}", percent_encode(match rng.below(4) { 0 => &sat, 1 => &spaced, 2 => &satpoint, _ => &rune_id }))),
+        ("children-page", format!("/r/children/{}/{}", percent_encode(&id), percent_encode(&number))),
+        ("input", format!("/input/{}/{}/{}", percent_encode(&number), percent_encode(&digits(&mut rng)), percent_encode(&digits(&mut rng)))),
+      ];
+      for (route, path) in routes {
+        rep.eval();
+        let parser = format!("http-{route}");
+        match ex.get_json(&path) {
+          Err(e) => {
+            // no response at all: the handler died
+            rep.violation(&format!("C31/{parser}/no-response"), format!("GET {path}: {e}"), json!({"replay": replay, "path": path}));
+          }
+          Ok(r) => {
+            rep.count(&format!("{parser}_status_{}", r.status / 100 * 100));
+            rep.distinct(&(parser.clone(), r.status, path.len().min(60) / 6));
+            if route == "sat" && r.status == 200 {
+              let Ok(want) = ref_sat(&sat) else { continue };
+              let served = r.json::<serde_json::Value>().ok().and_then(|v| v["number"].as_u64());
+              match (served, want) {
+                (Some(n), Some(w)) if n == w => rep.count("http-sat_accept"),
+                (Some(n), Some(w)) => rep.violation("C31/http-sat/wrong-value", format!("GET {path} serves sat {n}, but {sat:?} denotes {w}"), json!({"replay": replay, "path": path})),
+                (Some(n), None) => rep.violation("C31/http-sat/accepts-non-denoting", format!("GET {path} serves sat {n}, but {sat:?} denotes no sat"), json!({"replay": replay, "path": path})),
+                (None, _) => {}
+              }
+            }
+          }
+        }
+      }
+    }
+  }
+  ex.stop();
+  let _ = std::fs::remove_dir_all(&dir);
+}
+
 pub fn run_c31(ctx: &Ctx, rep: &mut Report) {
+  // two shards in eight exercise the explorer's query parsers over HTTP
+  if ctx.shard % 4 == 3 && ctx.only_case.is_none_or(|c| c != u64::MAX) {
+    return http_pass(ctx, rep);
+  }
   if ctx.deterministic_part() {
     let mut ck = Checker { rep, replay: ctx.replay_info(u64::MAX), prop: "C31" };
     known_probes(&mut ck);
